@@ -219,12 +219,18 @@ func init() {
 		in.reschedule(th, "join", token.NoPos)
 		th.blocked = nil
 		th.joiner = false
+		in.hbBarrier()
 		return nil
 	})
 	reg(rtPkg+"Atomic", func(in *Interp, fr *frame, args []value) value {
 		in.atomic++
 		defer func() { in.atomic-- }()
 		in.call(fr, token.NoPos, args[0], nil)
+		return nil
+	})
+	reg(rtPkg+"RaceCheck", func(in *Interp, fr *frame, args []value) value {
+		in.race.on = true
+		in.h.Bounds["happens-before-race-monitor"] = 1
 		return nil
 	})
 	reg(rtPkg+"Yield", func(in *Interp, fr *frame, args []value) value {
@@ -342,6 +348,7 @@ func init() {
 		in.syncOp(fr, "Lock", fr.callpos, func() bool { return !m.locked && m.readers == 0 })
 		m.locked = true
 		m.owner = in.cur.id
+		in.hbAcquire(m)
 		return nil
 	}
 	unlock := func(in *Interp, fr *frame, args []value) value {
@@ -350,6 +357,7 @@ func init() {
 			panic(runtimePanic{"fatal error: sync: unlock of unlocked mutex"})
 		}
 		m.locked = false
+		in.hbRelease(m)
 		in.syncOp(fr, "Unlock", fr.callpos, nil)
 		return nil
 	}
@@ -362,6 +370,7 @@ func init() {
 			return in.tt.False
 		}
 		m.locked = true
+		in.hbAcquire(m)
 		return in.tt.True
 	})
 	reg("(*sync.RWMutex).Lock", lock)
@@ -370,6 +379,7 @@ func init() {
 		m := in.mutex(args[0].(*value))
 		in.syncOp(fr, "RLock", fr.callpos, func() bool { return !m.locked })
 		m.readers++
+		in.hbAcquire(m)
 		return nil
 	})
 	reg("(*sync.RWMutex).RUnlock", func(in *Interp, fr *frame, args []value) value {
@@ -378,6 +388,7 @@ func init() {
 			panic(runtimePanic{"fatal error: sync: RUnlock of unlocked RWMutex"})
 		}
 		m.readers--
+		in.hbRelease(m)
 		in.syncOp(fr, "RUnlock", fr.callpos, nil)
 		return nil
 	})
@@ -390,10 +401,11 @@ func init() {
 		}
 		in.syncOp(fr, "Once.Do", fr.callpos, func() bool { return !st.running })
 		if st.done {
+			in.hbAcquire(st)
 			return nil
 		}
 		st.running = true
-		defer func() { st.running = false; st.done = true }()
+		defer func() { st.running = false; st.done = true; in.hbRelease(st) }()
 		in.call(fr, token.NoPos, args[1], nil)
 		return nil
 	})
@@ -421,6 +433,7 @@ func init() {
 		if st.n < 0 {
 			panic(runtimePanic{"sync: negative WaitGroup counter"})
 		}
+		in.hbRelease(st)
 		in.syncOp(fr, "wg.Done", fr.callpos, nil)
 		return nil
 	})
@@ -432,6 +445,7 @@ func init() {
 			in.wgState[p] = st
 		}
 		in.syncOp(fr, "wg.Wait", fr.callpos, func() bool { return st.n == 0 })
+		in.hbAcquire(st)
 		return nil
 	})
 	reg("(*sync.Pool).Get", func(in *Interp, fr *frame, args []value) value {
@@ -457,34 +471,40 @@ func init() {
 	})
 
 	// ------------------------------------------------------------ sync/atomic
-	atomicPre := func(in *Interp, fr *frame) {
+	atomicPre := func(in *Interp, fr *frame, args []value) {
 		in.syncOp(fr, "atomic", fr.callpos, nil)
+		if in.race.on && len(args) > 0 {
+			if p, ok := args[0].(*value); ok && p != nil {
+				in.race.atomic[p] = true
+				in.hbBoth(p)
+			}
+		}
 	}
 	for _, ty := range []string{"Int32", "Int64", "Uint32", "Uint64", "Uintptr"} {
 		ty := ty
 		reg("sync/atomic.Load"+ty, func(in *Interp, fr *frame, args []value) value {
-			atomicPre(in, fr)
+			atomicPre(in, fr, args)
 			return in.loadPtr(nil, args[0])
 		})
 		reg("sync/atomic.Store"+ty, func(in *Interp, fr *frame, args []value) value {
-			atomicPre(in, fr)
+			atomicPre(in, fr, args)
 			in.storePtr(nil, args[0], args[1])
 			return nil
 		})
 		reg("sync/atomic.Add"+ty, func(in *Interp, fr *frame, args []value) value {
-			atomicPre(in, fr)
+			atomicPre(in, fr, args)
 			v := in.tt.Add(in.loadPtr(nil, args[0]).(*Term), args[1].(*Term))
 			in.storePtr(nil, args[0], v)
 			return v
 		})
 		reg("sync/atomic.Swap"+ty, func(in *Interp, fr *frame, args []value) value {
-			atomicPre(in, fr)
+			atomicPre(in, fr, args)
 			old := in.loadPtr(nil, args[0])
 			in.storePtr(nil, args[0], args[1])
 			return old
 		})
 		reg("sync/atomic.CompareAndSwap"+ty, func(in *Interp, fr *frame, args []value) value {
-			atomicPre(in, fr)
+			atomicPre(in, fr, args)
 			old := in.loadPtr(nil, args[0]).(*Term)
 			if in.branch(in.tt.Eq(old, args[1].(*Term)), "cas") {
 				in.storePtr(nil, args[0], args[2])
@@ -498,29 +518,29 @@ func init() {
 			return &st[len(st)-1]
 		}
 		reg("(*sync/atomic."+ty+").Load", func(in *Interp, fr *frame, args []value) value {
-			atomicPre(in, fr)
+			atomicPre(in, fr, args)
 			return *field(args[0])
 		})
 		reg("(*sync/atomic."+ty+").Store", func(in *Interp, fr *frame, args []value) value {
-			atomicPre(in, fr)
+			atomicPre(in, fr, args)
 			*field(args[0]) = args[1]
 			return nil
 		})
 		reg("(*sync/atomic."+ty+").Add", func(in *Interp, fr *frame, args []value) value {
-			atomicPre(in, fr)
+			atomicPre(in, fr, args)
 			c := field(args[0])
 			*c = in.tt.Add((*c).(*Term), args[1].(*Term))
 			return *c
 		})
 		reg("(*sync/atomic."+ty+").Swap", func(in *Interp, fr *frame, args []value) value {
-			atomicPre(in, fr)
+			atomicPre(in, fr, args)
 			c := field(args[0])
 			old := *c
 			*c = args[1]
 			return old
 		})
 		reg("(*sync/atomic."+ty+").CompareAndSwap", func(in *Interp, fr *frame, args []value) value {
-			atomicPre(in, fr)
+			atomicPre(in, fr, args)
 			c := field(args[0])
 			if in.branch(in.tt.Eq((*c).(*Term), args[1].(*Term)), "cas") {
 				*c = args[2]
@@ -530,23 +550,23 @@ func init() {
 		})
 	}
 	reg("(*sync/atomic.Bool).Load", func(in *Interp, fr *frame, args []value) value {
-		atomicPre(in, fr)
+		atomicPre(in, fr, args)
 		st := (*(args[0].(*value))).(structure)
 		return in.tt.Not(in.tt.Eq(st[len(st)-1].(*Term), in.tt.Const(32, 0)))
 	})
 	reg("(*sync/atomic.Bool).Store", func(in *Interp, fr *frame, args []value) value {
-		atomicPre(in, fr)
+		atomicPre(in, fr, args)
 		st := (*(args[0].(*value))).(structure)
 		st[len(st)-1] = in.tt.Ite(args[1].(*Term), in.tt.Const(32, 1), in.tt.Const(32, 0))
 		return nil
 	})
 	// atomic.Value: struct{ v any }
 	reg("(*sync/atomic.Value).Load", func(in *Interp, fr *frame, args []value) value {
-		atomicPre(in, fr)
+		atomicPre(in, fr, args)
 		return (*(args[0].(*value))).(structure)[0]
 	})
 	reg("(*sync/atomic.Value).Store", func(in *Interp, fr *frame, args []value) value {
-		atomicPre(in, fr)
+		atomicPre(in, fr, args)
 		if args[1].(iface).t == nil {
 			panic(targetPanic{iface{types.Typ[types.String], in.mkStr("sync/atomic: store of nil value into Value")}})
 		}
